@@ -140,7 +140,9 @@ ABSL_ATTRIBUTE_NOINLINE void GarbageCollector<R>::keep_reclaim() noexcept {
   ::std::vector<ReclaimTask> tasks;
   size_t backoff_us = 1000;
   tasks.reserve(batch);
-  while (running) {
+  // the stop marker only ends the intake: tasks consumed before it still wait for
+  // the regions that were open at their retirement, and must run before we leave
+  while (running || index < tasks.size()) {
     if (index == tasks.size()) {
       tasks.clear();
       running = consume_reclaim_task(batch, tasks);
